@@ -134,7 +134,10 @@ def render_parts(st, fa):
                     text = fill * (pad // 2) + text + fill * (pad - pad // 2)
                 else:
                     text = (fill * pad + text) if isinstance(v, Int) else (text + fill * pad)
-        out.append(text if text is not None else ('disp', kind, repr(v)))
+        if text is None and kind == 'display' and isinstance(v, Int) and not opts:
+            out.append(('int', v))        # symbolic integer with default formatting: kept symbolic for the obligation's VC
+        else:
+            out.append(text if text is not None else ('disp', kind, repr(v)))
     # merge adjacent literal strings
     merged = []
     for x in out:
